@@ -86,6 +86,7 @@ class Interp:
         self.discharged = 0
         self.discharge_kinds = {}
         self.undecided_callees = {}
+        self.foreign_unmodelled = {}
         self.steps = 0
         self.max_states = max_states
         self.max_depth = max_depth
